@@ -50,6 +50,10 @@ def pools(tier):
     P["CRG-lab3C"] = (crg_lab, crg_lab) if tier == "thorough" else (crg_lab, [g for g in crg if len(g.atoms) == 3])
     st = [g for g in U.stars(5 if tier == "quick" else 6) if E.fully_specified(g)]
     P["stars"] = (st, st)
+    if tier == "quick":
+        # (thorough has all six-coordinate stars in "stars"; quick: the octahedral ones, every stereoisomer of every ligand pattern)
+        oc = [g for g in U.stars(6) if len(g.atoms) == 7 and E.fully_specified(g)]
+        P["stars-octahedral"] = (oc, oc)
     tu = [g for g in U.two_unit() if E.fully_specified(g)]
     P["two-unit"] = (tu, tu)
     sc = [g for g in U.scrg_universe("quick" if tier == "quick" else "thorough") if E.fully_specified(g)]
@@ -67,6 +71,21 @@ def pools(tier):
     P["symmetric-reactions"] = (sr, sr)
     srs = [U.to_kind(g, SCRG) for g in sr]
     P["symmetric-reactions-SCRG"] = (srs[::3], srs)
+    # several stereo changes of one kind meeting at one atom: double ring closure to a dioxaspiropentane - the spiro carbon's
+    # formed descriptor (R or S; its neighbours are two equivalent pairs, so only the descriptor tells them apart) and the formed
+    # descriptors of the two ring oxygens, which have the spiro carbon as a ligand; registered in either order
+    sa = [(0, "C"), (1, "O"), (2, "O"), (3, "C"), (4, "C"), (5, "H"), (6, "H"), (7, "H"), (8, "H")]
+    sb = [(0, 1, "FORMED"), (0, 2, "FORMED"), (0, 3), (0, 4), (1, 3), (2, 4), (3, 5), (3, 6), (4, 7), (4, 8)]
+    sp = []
+    for par in (1, -1):
+        for order in (0, 1):
+            ch = [(0, {"FORMED": ("Tetrahedral", (0, 1, 3, 2, 4), par)}), (1, {"FORMED": ("Tetrahedral", (1, 0, 3, None, None), 1)}),
+                  (2, {"FORMED": ("Tetrahedral", (2, 0, 4, None, None), 1)})]
+            if order:
+                ch = ch[1:] + ch[:1]
+            sp.append(U.mk(SCRG, sa, sb, achg=dict(ch)))
+            sp.append(U.mk(SCRG, sa, sb, achg=dict(ch[:1] if not order else ch[-1:])))
+    P["spiro-stereo-changes"] = (sp, sp + [g.copy().relabel({a: 20 - a for a in g.atoms}) for g in sp])
     # second graph written with identifiers whose Python hashes coincide (-1 / -2, k / k + 2^61 - 1), placed on every pair of atoms
     # two positions apart in the identifier order (ring CH2 groups, geminal ligands, the two centres)
     Pm = 2 ** 61 - 1
